@@ -45,6 +45,12 @@ def tasks(tier, seed):
                        "T": 8 if vroom else (40 if tier == "quick" else 100), "R": list(configs.R3), "base": base,
                        "k": 1 if tier == "quick" else (1 if vroom else 2),
                        "max_exec": 3000 if tier == "quick" else 60000})
+    # StroquOOL: one budget per value of h_max (1..8), whole run on three reward scripts (k=0: one execution each)
+    for n in (100, 185, 326, 482, 649, 826, 1011, 1203):
+        for base in ("peak", "zero", "alt"):
+            cfg = configs.cfg("StroquOOL", "Binary", None, configs.BOXES["u1"], n=n)
+            ts.append({"kind": "algo", "label": "base/StroquOOL%d/%s" % (n, base), "cfg": cfg, "mode": "dev", "T": min(n, 450),
+                       "R": list(configs.R2), "base": base, "k": 0, "cost": 2})
     # schedule-driven algorithms reach other phases only with larger budgets
     for n in (600, 1000):
         for part, K, box in (("Binary", None, "u1"), ("Kary", 3, "u1")):
